@@ -126,6 +126,68 @@ PROBE_TEXT = ["x", " ", "\t", "\n", "\x0c", "\x00", "&amp;", "x y", " x", "<!--c
 SUFFIXES = ["y<!--z-->", "<b>y</b><p>z"]
 
 
+def doctype_family():
+    """Every quirks / limited-quirks public identifier of the standard x system identifier shape x name, observed through
+    the one tree-visible effect of quirks mode (<p><table> keeps p open)."""
+    pubs = list(rtree_core.QUIRKS_PUBLIC_PREFIXES) + [
+        "-//w3o//dtd w3 html strict 3.0//en//", "-/w3c/dtd html 4.0 transitional/en", "html",
+        "-//w3c//dtd html 4.01 frameset//", "-//w3c//dtd html 4.01 transitional//", "-//w3c//dtd xhtml 1.0 frameset//",
+        "-//w3c//dtd xhtml 1.0 transitional//", "-//w3c//dtd html 4.01//", "-//w3c//dtd xhtml 1.0 strict//", "", "x"]
+    sysids = [None, "", "x", "http://www.ibm.com/data/dtd/v11/ibmxhtml1-transitional.dtd",
+              "HTTP://WWW.IBM.COM/data/dtd/v11/ibmxhtml1-transitional.DTD", "http://www.ibm.com/data/dtd/v11/ibmxhtml1-transitional.dtd "]
+    out = []
+    for pi, pub in enumerate(pubs):
+        for var in (pub, pub.upper(), pub + "EN", pub[:-1] if pub else "y"):
+            for si, sysid in enumerate(sysids):
+                q = "'" if (pi + si) % 3 == 0 and "'" not in var and "'" not in (sysid or "") else '"'
+                d = "<!DOCTYPE html PUBLIC %s%s%s" % (q, var, q)
+                if sysid is not None:
+                    d += " %s%s%s" % (q, sysid, q)
+                out.append(d + "><p><table>x")
+    for name in ("html", "HTML", "htm", "html5", ""):
+        for tail in ("", " SYSTEM 'about:legacy-compat'", " SYSTEM \"http://www.ibm.com/data/dtd/v11/ibmxhtml1-transitional.dtd\"", " SYSTEM ''",
+                     " PUBLIC", " PUBLIC 'x", " SYSTEM \"x", " x", " PUBLIC 'html' x", " PUBLIC \"\" \"\"", " SYSTEM \"\" x"):
+            out.append("<!DOCTYPE %s%s><p><table>x" % (name, tail))
+    out += ["<p><table>x", "<!-- c --><!DOCTYPE html><p><table>x", " <!DOCTYPE html><p><table>x", "<!DOCTYPE html><!DOCTYPE x><p><table>x"]
+    return out
+
+
+def limits_family():
+    """Loop bounds and list limits of the algorithms: adoption agency outer (8) and inner (3) loops, Noah's Ark (3),
+    scope depth, implied-end-tag chains."""
+    out = []
+    blocks = ["div", "p", "section", "ul", "li", "blockquote", "article", "dd", "address", "center", "h1", "table"]
+    for n in range(0, 13):
+        for f in ("b", "a", "em class=c", "nobr", "font size=1"):
+            nm = f.split()[0]
+            out.append("<%s>" % f + "<div>" * n + "x</%s>y" % nm)
+            out.append("<%s>" % f + "".join("<%s>" % blocks[j % len(blocks)] for j in range(n)) + "x</%s>y</%s>z" % (nm, nm))
+            out.append("<%s>" % f + "<i>" * n + "<p>x</%s>y" % nm)
+            out.append("<%s>" % f + "".join("<%s>" % "iusb"[j % 4] for j in range(n)) + "<div>x</%s>y</i>z" % nm)
+            out.append(("<%s>" % f) * n + "x" + "".join("</%s>%d" % (nm, j) for j in range(n)))
+            out.append(("<%s>" % f) * n + "<p>x</p>y")
+            out.append("<p>" + ("<%s>" % f) * n + "x</p>y</%s>z" % nm)
+        out.append("<table>" * n + "x" + "</table>" * n + "y")
+        out.append("<ul><li>" * n + "x</li>y")
+        out.append("<dl><dd>" * n + "<dt>x")
+        out.append("<ruby>" + "<rb><rt>" * n + "x</ruby>y")
+        out.append("<select>" + "<optgroup><option>" * n + "x</select>y")
+        out.append("<table><td>" + "<b>" * n + "<table><td>x</b>y</table>z</b>w")
+        out.append("<svg>" + "<g>" * n + "<p>x")
+        out.append("<button>" * n + "x</button>y")
+        out.append("<form>" * n + "x</form>y</form>z")
+        out.append("<a>" * n + "x")
+        out.append("<h%d>" % (n % 6 + 1) * 2 + "x</h1>y")
+    return out
+
+
+FRAMESET_PREFIXES = ["", "<!DOCTYPE html>", "<body>", "<p>", "<div><span>", "<svg>", "<svg><g>", "<svg><desc>", "<svg><foreignObject>", "<math>", "<math><mi>",
+                     "<math><annotation-xml>", "<table>", "<table><tr><td>", "<select>", "<b>", "<head></head>", "<html>", "<body></body>", "<ruby>", "<form>",
+                     "<svg></svg>", "<math></math>", "<p></p>", "<b></b>", "<table></table>", "<button>", "<object>", "<pre>", "<textarea></textarea>"]
+FRAMESET_SUFFIX = "<frameset><frame></frameset>z"
+FRAMESET_PROBES = PROBE_TEXT + ["a b", "a\tb", " \n", "\x00 ", "a\x00", " \x00 ", "&#32;", "&#x20;x", "<![CDATA[ ]]>", "<![CDATA[x y]]>", "<![CDATA[x]]>"]
+
+
 def probes():
     out = list(PROBE_TEXT)
     for nm in sorted(set(gen.ALL_TAGS)):
@@ -156,9 +218,29 @@ def shard(ctx):
             for suf in SUFFIXES:
                 scr = bool((pi + qi) % 2)
                 judge(ctx, {"input": pre + q + suf, "container": None, "scripting": scr}, "walk-document")
+            if k % 40 == 0:
+                determinism(ctx, {"input": pre + q + SUFFIXES[0], "container": None, "scripting": bool(qi % 2)})
             # fragment: the same probe in a rotating context element
             cont = ctxs[(pi * 7 + qi) % len(ctxs)]
             judge(ctx, {"input": pre + q + SUFFIXES[qi % 2], "container": cont, "scripting": bool(qi % 2)}, "walk-fragment")
+    # directed families added after the second round of seeded changes: quirks-mode decision, loop bounds, frameset-ok flag
+    for fam, items in (("doctype", doctype_family()), ("limits", limits_family())):
+        for qi, q in enumerate(items):
+            k += 1
+            if ctx.mine(k):
+                judge(ctx, {"input": q, "container": None, "scripting": bool(qi % 2)}, "family-" + fam)
+                if fam == "limits" and qi % 3 == 0:
+                    judge(ctx, {"input": q, "container": ctxs[qi % len(ctxs)], "scripting": False}, "family-" + fam)
+    fpr = FRAMESET_PROBES + [x for x in pr if x.startswith("<") and not x.startswith("</")]
+    for pi, pre in enumerate(FRAMESET_PREFIXES):
+        for qi, q in enumerate(fpr):
+            k += 1
+            if ctx.mine(k):
+                judge(ctx, {"input": pre + q + FRAMESET_SUFFIX, "container": None, "scripting": bool((pi + qi) % 2)}, "family-frameset-ok")
+                # a frameset start tag inside foreign content is just a foreign element: leave foreign content first
+                for closer in ("</svg>", "</math>"):
+                    if pre.startswith("<" + closer[2:-1] + ">") and "</" not in pre:
+                        judge(ctx, {"input": pre + q + closer + FRAMESET_SUFFIX, "container": None, "scripting": False}, "family-frameset-ok")
     # every fragment context x a small probe set (reset-the-insertion-mode and tokenizer start state per context)
     small = ["x", " x ", "<td>x", "<tr><td>x", "<option>x", "</select>x", "<b>x</p>y", "<svg><p>x", "<table><td>x", "<col>", "<caption>x", "<frame>",
              "<frameset>", "</body>x", "</html>x", "<head>x", "<body a=b>x", "<html a=b>x", "<form>x", "&amp;</title>x", "<!--c-->", "\x00x"]
